@@ -109,6 +109,14 @@ pub fn panic_key(p: &str) -> String {
         .iter()
         .find_map(|m| file.find(m).map(|i| &file[i..]))
         .unwrap_or(file);
+    // dependency sources: "<crate>-<version>/src/..." (drop the registry location), std: "library/..."
+    let file = match file.find("/registry/src/") {
+        Some(i) => file[i + 14..].split_once('/').map(|x| x.1).unwrap_or(file),
+        None => match file.find("/library/") {
+            Some(i) => &file[i + 1..],
+            None => file,
+        },
+    };
     for c in msg.chars() {
         if c.is_ascii_digit() {
             if !prev_digit {
